@@ -66,6 +66,29 @@ def _runs_of(path):
     return runs
 
 
+def _subsample_runs(path, n):
+    """Keep about n runs of a file of runs: the first n/5 (shortest histories,
+    BFS order), the last n/5 (deepest) and an even spread in between."""
+    starts = []
+    with open(path) as f:
+        lines = f.readlines()
+    for i, line in enumerate(lines):
+        if _is_reset(line):
+            starts.append(i)
+    m = len(starts)
+    if m <= n:
+        return m
+    k = n // 5
+    keep = set(range(k)) | set(range(m - k, m))
+    rest = n - 2 * k
+    keep |= {k + (j * (m - 2 * k)) // rest for j in range(rest)}
+    starts.append(len(lines))
+    with open(path, "w") as f:
+        for j in sorted(keep):
+            f.writelines(lines[starts[j]:starts[j + 1]])
+    return len(keep)
+
+
 def _validate(rep, trace, what, mk_replay, shards=8, timeout=1500):
     """Validate a file of runs with Trace_Executor.  Rejections become
     violations.  Returns (info, rejected_run_count)."""
@@ -146,7 +169,7 @@ def run(tier):
         nb = vlib.count_lines(gen)
         every = max(1, nb // (150 if tier == "quick" else 400))
         _, out, _ = vlib.run_harness(PKG, ["replay", "--in", gen, "--chans", nchan, "--mismatch", mm, "--sample", sm,
-                                           "--sample-every", every, "--max-mismatch", 200])
+                                           "--sample-every", every, "--max-mismatch", 400000])
         stt = json.loads(out)
         behaviours += stt["behaviours"]
         matched += stt["matched"]
@@ -167,9 +190,9 @@ def run(tier):
         if stt["mismatched"]:
             for fm in stt["first_mismatch"]:
                 vlib.log(f"[p2] first difference: {json.dumps(fm)[:400]}")
+            n_mm = _subsample_runs(mm, 300)
             info, bad = _validate(rep, mm, f"replay of {cfg}", mk_replay)
             validated_events += info["events"]
-            n_mm = min(stt["mismatched"], 200)
             drift += max(0, n_mm - bad)
             if bad == 0:
                 notes.append(f"NOTE: {stt['mismatched']} behaviours of {cfg} differ from the driver model but "
